@@ -80,10 +80,12 @@ PROPS = {
                             "AquaCropModel._initialize, outside the verifier's reach; it is explored over column permutations, extra columns, re-indexed tables and extra "
                             "leading/trailing rows on real runs, bitwise. E1 contributes only that the daily step reads exactly the row whose index is the step counter."),
     "C08": dict(functions=["reset_initial_conditions#body", "update_time", "pre_irrigation", "soil_evaporation"], level="other", call_order_of=["solution_single_time_step"], bounded=dict(module="c08_seasons.py"),
+                # a store by the season reset / the clock into anything but the declared frame (state, season crop) is a channel from one season into the next
+                store_scan=lambda area, kind: area == "timestep",
                 explanation="E1: the real body of reset_initial_conditions resets every season-state field to the value a fresh run starts from (counters, flags, factors, "
                             "crop-dependent values, aeration counters, potential fluxes), restores the configured water content from a PRIVATE copy (th is not thini) and the "
                             "initial ponding; update_time calls it exactly when a season starts; BOUNDED: season k of a multi-season run vs a fresh single-season run, bitwise"),
-    "C20": dict(functions=["rainfall_partition", "irrigation", "infiltration", "soil_evaporation", "solution_single_time_step"], level="other", bounded=dict(module="c20_inert.py"),
+    "C20": dict(functions=["rainfall_partition", "irrigation", "infiltration", "soil_evaporation", "solution_single_time_step", "reset_initial_conditions#body"], level="other", bounded=dict(module="c20_inert.py"),
                 explanation="E1: read-guards (a parameter of a switched-off feature is never read): bund height without bunds, curve-number percentage under inhibited runoff, "
                             "strategy parameters of other strategies, efficiency out of season, mulch parameters without mulches, wetted fraction without irrigation; "
                             "neutral values: irrigation applies nothing at daily/seasonal maximum 0, depth 0 or an empty schedule day (function and reported row); the mulch-adjusted "
